@@ -327,45 +327,7 @@ def run(ctx):
     r3.check(admin_ok, 'mistral.policies.base :: admin_only',
              'base rule admin_only is not "is_admin:True"',
              'mistral/policies/base.py')
-    # rest_utils.get_all derives insecure only from all_projects / is_admin
-    g = prog.func('mistral.utils.rest_utils.get_all')
-    cfg = ctx.cfg(g)
-    IN, keys = ctx.sd.analyze(
-        cfg, g, [('insecure', (False, True)),
-                 ('all_projects', (False, True)),
-                 ('auth_ctx.ctx().is_admin', (False, True))])
-    n_sinks = 0
-    for n, c in cfg.calls():
-        if any(k.arg == 'insecure' for k in c.keywords):
-            n_sinks += 1
-            bad = [v for v in IN[n.id]
-                   if v[0] is True and not v[1] and not v[2]]
-            r3.check(not bad, ctx.construct(g, c, 'insecure origin'),
-                     'insecure=True can reach the DB call although neither '
-                     'all_projects nor is_admin holds', ctx.loc(g, c))
-    # nested _get_all_function reads `insecure` from the closure
-    for q, nf in prog.funcs.items():
-        if q.startswith(g.qname + '.<locals>.'):
-            for n in own_nodes(nf.node):
-                if isinstance(n, ast.Call) and any(
-                        k.arg == 'insecure' for k in n.keywords):
-                    n_sinks += 1
-    if n_sinks < 1:
-        raise AnalysisError('C16.R3: rest_utils.get_all no longer passes '
-                            'insecure= to the DB function')
-    stores = [n for n in own_nodes(g.node) if isinstance(n, ast.Assign) and
-              any(isinstance(t, ast.Name) and t.id == 'insecure'
-                  for t in n.targets)]
-    for nf in [x for q, x in prog.funcs.items()
-               if q.startswith(g.qname + '.<locals>.')]:
-        for n in own_nodes(nf.node):
-            if isinstance(n, (ast.Assign, ast.AugAssign)) and 'insecure' in \
-                    {x.id for x in ast.walk(n) if isinstance(x, ast.Name) and
-                     isinstance(x.ctx, ast.Store)}:
-                r3.fail(ctx.construct(nf, n), 'insecure re-assigned in a '
-                        'nested helper', ctx.loc(nf, n))
-    r3.check(len(stores) >= 1, ctx.construct(g, extra='insecure stores'),
-             'no assignment to insecure found')
+    insecure_origin(ctx, r3)
 
     # ---- R4 publicize ----------------------------------------------------
     r4 = ctx.rule('R4', 'making a resource public requires the publicize '
@@ -476,6 +438,39 @@ def run(ctx):
                      ctx.construct(f, extra='error mapping'),
                      'pecan.expose method without '
                      'wrap_pecan_controller_exception', ctx.loc(f))
+
+    # ---- R7 admin identity -----------------------------------------------
+    r7 = ctx.rule('R7', 'admin status comes from an exact role match and '
+                  'reaches the policy engine unchanged', 'GD')
+    fe = prog.func('mistral.context.MistralContext.from_environ')
+    stores = [(t, st) for t, st in U.attr_stores(fe.node)
+              if t.attr == 'is_admin']
+    if not stores:
+        raise AnalysisError('C16.R7: from_environ no longer sets is_admin')
+    for t, st in stores:
+        r7.check(admin_expr_exact(fe, st.value), ctx.construct(fe, st),
+                 'is_admin is not decided by the exact membership test '
+                 "'admin' in <context>.roles (e.g. substring / "
+                 'case-folded / prefix matches make roles such as '
+                 '"project_admin" administrators)', ctx.loc(fe, st))
+    en = prog.func('mistral.api.access_control.enforce')
+    ok = any(isinstance(n, ast.Assign) and
+             norm(n.targets[0]) == "policy_context['is_admin']" and
+             norm(n.value) == 'context.is_admin'
+             for n in own_nodes(en.node))
+    auth = [n for n in own_nodes(en.node) if isinstance(n, ast.Call) and
+            U.call_name(n) == 'authorize']
+    r7.check(ok and bool(auth) and any(
+        dotted(a) == 'policy_context' for a in auth[0].args) and
+        dotted(auth[0].args[0]) == 'action',
+        ctx.construct(en), 'enforce no longer authorizes the requested '
+        'action with is_admin taken from the request context',
+        ctx.loc(en))
+    dr = U.kwarg(auth[0], 'do_raise') if auth else None
+    r7.check(dr is not None and dotted(dr) == 'do_raise' and
+             'do_raise=True' in ast.unparse(en.node.args),
+             ctx.construct(en, extra='raises by default'),
+             'a denied request no longer raises by default', ctx.loc(en))
 
     # ---- R6 documented moves only ----------------------------------------
     r6 = ctx.rule('R6', 'state-changing requests are limited to the '
@@ -652,3 +647,68 @@ def documented_moves(ctx, r6):
                      '%s reachable with requested state %s (allowed %s)'
                      % (name, sorted(map(str, vals - allowed)),
                         sorted(allowed)), ctx.loc(ap, c))
+
+
+def admin_expr_exact(f, value):
+    """value is (possibly wrapped in `True if X else False` / bool(X)) the
+    comparison  'admin' in <obj>.roles  with the roles attribute used
+    directly (no join / lower / startswith / any-substring)."""
+    v = value
+    if isinstance(v, ast.IfExp) and norm(v.body) == 'True' and \
+            norm(v.orelse) == 'False':
+        v = v.test
+    if isinstance(v, ast.Call) and U.call_name(v) == 'bool' and v.args:
+        v = v.args[0]
+    if not (isinstance(v, ast.Compare) and len(v.ops) == 1 and
+            isinstance(v.ops[0], ast.In)):
+        return False
+    left, right = v.left, v.comparators[0]
+    if not (isinstance(left, ast.Constant) and left.value == 'admin'):
+        return False
+    return isinstance(right, ast.Attribute) and right.attr == 'roles' and \
+        dotted(right) is not None
+
+
+def insecure_origin(ctx, r3):
+    """rest_utils.get_all derives `insecure` only from all_projects or
+    is_admin."""
+    prog = ctx.prog
+    g = prog.func('mistral.utils.rest_utils.get_all')
+    cfg = ctx.cfg(g)
+    IN, keys = ctx.sd.analyze(
+        cfg, g, [('insecure', (False, True)),
+                 ('all_projects', (False, True)),
+                 ('auth_ctx.ctx().is_admin', (False, True))])
+    n_sinks = 0
+    for n, c in cfg.calls():
+        if any(k.arg == 'insecure' for k in c.keywords):
+            n_sinks += 1
+            bad = [v for v in IN[n.id]
+                   if v[0] is True and not v[1] and not v[2]]
+            r3.check(not bad, ctx.construct(g, c, 'insecure origin'),
+                     'insecure=True can reach the DB call although neither '
+                     'all_projects nor is_admin holds', ctx.loc(g, c))
+    # nested _get_all_function reads `insecure` from the closure
+    for q, nf in prog.funcs.items():
+        if q.startswith(g.qname + '.<locals>.'):
+            for n in own_nodes(nf.node):
+                if isinstance(n, ast.Call) and any(
+                        k.arg == 'insecure' for k in n.keywords):
+                    n_sinks += 1
+    if n_sinks < 1:
+        raise AnalysisError('C16.R3: rest_utils.get_all no longer passes '
+                            'insecure= to the DB function')
+    stores = [n for n in own_nodes(g.node) if isinstance(n, ast.Assign) and
+              any(isinstance(t, ast.Name) and t.id == 'insecure'
+                  for t in n.targets)]
+    for nf in [x for q, x in prog.funcs.items()
+               if q.startswith(g.qname + '.<locals>.')]:
+        for n in own_nodes(nf.node):
+            if isinstance(n, (ast.Assign, ast.AugAssign)) and 'insecure' in \
+                    {x.id for x in ast.walk(n) if isinstance(x, ast.Name) and
+                     isinstance(x.ctx, ast.Store)}:
+                r3.fail(ctx.construct(nf, n), 'insecure re-assigned in a '
+                        'nested helper', ctx.loc(nf, n))
+    r3.check(len(stores) >= 1, ctx.construct(g, extra='insecure stores'),
+             'no assignment to insecure found')
+
